@@ -517,13 +517,14 @@ struct SSGen {
         if (c.on.count("lazyvar")) s += "<xsl:variable name=\"LAZY1\" select=\"sum(//@v[. &gt; 0])\"/><xsl:variable name=\"LAZY2\" select=\"//*[@k][position() &lt; 4]\"/>\n";
         if (c.docFn) out.resources["aux.xml"] = "<?xml version=\"1.0\"?><aux><x id=\"x1\">one</x><x id=\"x2\">two</x><y><x id=\"x3\">three</x></y></aux>";
         s += top + extraTop2 + "\n";
-        s += "<xsl:template match=\"/\"><" + c.rootName + " total=\"{$G1}\" ctx=\"{position()}/{last()}/{$GP}\">" + rootBody;
+        s += "<xsl:template match=\"/\"><" + c.rootName + " total=\"{$G1}\" ctx=\"{position()}/{last()}/{$GP}\">" + (c.stripSpace ? std::string("<o f=\"ws-census\" n=\"/\"><xsl:value-of select=\"count(/*/text())\"/></o>") : std::string()) + rootBody;
         if (c.useInclude) s += "<o f=\"include\" n=\"/\"><xsl:call-template name=\"incT\"><xsl:with-param name=\"x\" select=\"$G1\"/></xsl:call-template></o>";
         if (c.useImport) s += "<o f=\"import-var\" n=\"/\"><xsl:value-of select=\"$IMPV\"/></o>";
         if (c.cdataElems) s += "<cd><xsl:value-of select=\"normalize-space((//text()[normalize-space()])[1])\"/></cd>";
         if (c.order == "rk") s += "<xsl:apply-templates select=\"//*\" mode=\"obs\"><xsl:sort select=\"@rk\" data-type=\"number\"/></xsl:apply-templates>";
         else if (c.order == "rev") s += "<xsl:apply-templates select=\"//*\" mode=\"obs\"><xsl:sort select=\"position()\" data-type=\"number\" order=\"descending\"/></xsl:apply-templates>";
         else s += "<xsl:apply-templates select=\"//*\" mode=\"obs\"/>";
+        if (c.stripSpace) s += "<o f=\"ws-census\" n=\"/\"><xsl:value-of select=\"count(//text())\"/>,<xsl:value-of select=\"count(/*/text()[not(normalize-space())])\"/></o>";   // the white-space-only children of the document element are the last nodes xsl:strip-space is asked about
         s += "</" + c.rootName + "></xsl:template>\n";
         s += "<xsl:template match=\"*\" mode=\"obs\">" + perNode + "</xsl:template>\n";
         s += extraTemplates + "\n";
